@@ -346,6 +346,8 @@ func genC15Alpha(r *Rng, tier string) (*Scenario, []Op, []Op) {
 						v = VInt(int(v.I) + 1 + i)
 					case (k == "s0" || k == "s1") && v.T == "str":
 						v = VStr(fmt.Sprintf("%s#t%d", v.S, i))
+					case v.T == "float":
+						v = VFloat(v.F + 1.37*float64(i+1) + 0.0078125)
 					}
 					nd.V = append(nd.V, v)
 				}
